@@ -548,6 +548,31 @@ def run_check(tier, seed):
                               dict(correspondence='C06/tr', goal=text), failing_input=False)
     run.cov['correspondence'] = dict(cases=len(exprs), disagree=dis)
 
+    # histories: the same TEXT at different variable types in one process (printing drops the types of free
+    # variables, so anything remembered per printed goal would carry a nat verdict over to int)
+    hist = ["0 <= x", "x <= y --> x - y + y = y", "x - y >= 0", "x + 1 > 0", "x * x >= x", "x - 1 < x | x = 0"]
+    for text in hist:
+        for order in (('nat', 'int'), ('int', 'nat')):
+            verdicts = {}
+            for ty in order:
+                context.set_context('int', vars={'x': ty, 'y': ty})
+                try:
+                    goal = parser.parse_term(text)
+                    verdicts[ty] = (z3wrapper.solve(goal), goal)
+                except RecursionError:
+                    raise
+                except Exception as e:
+                    run.stat('hist_exc:' + type(e).__name__)
+            for ty, (solved, goal) in verdicts.items():
+                if solved:
+                    valid, model = ref_decide(goal)
+                    cm = counter_model_qf(goal, r)
+                    if valid is False or cm is not None:
+                        run.violation('property', 'Z3 step accepts %s with x, y :: %s after the same text was solved at another type (order %s): false under the HOL meaning'
+                                      % (text, ty, '->'.join(order)), dict(goal=text, type=ty, order=order, counter_model=cm or model), key='C06:z3-history')
+            run.count(('z3-history', text, order), nontrivial=True)
+    context.set_context('int', vars={'m': 'nat', 'n': 'nat', 'k': 'nat', 'i': 'int', 'j': 'int'})
+
     # reals and friends: quantifier-free, exact counter-model search
     try:
         context.set_context('real', vars={'x': 'real', 'y': 'real', 'z': 'real', 'm': 'nat', 'n': 'nat', 'f': 'nat => nat', 'g': 'nat => nat'})
